@@ -238,18 +238,20 @@ func execC19(r *sim.Run) {
 		r.Case = "clients+stalls"
 	}
 	// optional sequential prefill
+	// (the initial state is tracked here, not read back with Get: without a prefill the concurrent phase must
+	// start on the untouched zero value, whose lazy initialisation in load() is part of what is explored)
+	var init c19State
 	if r.Choose(2, "prefill") == 1 {
 		for k := 0; k < nKeys; k++ {
 			if r.Choose(2, "prefillKey") == 1 {
-				cow.Updated(k, 7000+2*k+r.Choose(2, "prefillOdd"))
+				v := 7000 + 2*k + r.Choose(2, "prefillOdd")
+				cow.Updated(k, v)
+				init[k] = v
 			}
 		}
 	}
-	var init c19State
-	for k := 0; k < c19Keys; k++ {
-		if v := cow.Get(k); v.IsDefined() {
-			init[k] = v.Get()
-		}
+	if init == (c19State{}) {
+		r.Probe("concurrent-phase-starts-on-the-zero-value")
 	}
 
 	nClients := r.Range(2, 4, "nClients")
